@@ -147,6 +147,41 @@ class Json:
                         for pc in fs.pieces:
                             if pc[0] == "lit" and pc[1].startswith("\\") and not pc[1].startswith("\\u") and pc[1] not in valid:
                                 bad_esc.append(pc[1])
+            # every path through the escaper escapes: no returned value may contain the argument itself (only what was rebuilt from
+            # its characters) — `if all_printable { return format!("\"{}\"", s) }` lets '"' and '\\' through
+            fbody = P.bodies[fid]
+            Tf = terms(P, fbody)
+            rets = []
+            for bb, idx, st in fbody.stmts():
+                if st["p"] == (0,) and "rv" in st:
+                    rets.append(norm(Tf.rvalue(st["rv"], bb, idx)))
+            for bb, tm in fbody.calls():
+                if tm["dest"] == (0,):
+                    rets.append(norm(Tf.call_term(tm, bb)))
+
+            def raw_use(t, parent=None, depth=0):
+                if depth > 40:
+                    return False
+                if t == ("param", 1):
+                    return parent not in ("len", "chars", "bytes", "char_indices", "is_empty", "as_bytes", "iter", "encode_utf16")
+                if t[0] == "call":
+                    nm = str(t[1]).rsplit("::", 1)[-1]
+                    if nm == "format" or str(t[1]).startswith("std::fmt::Arguments"):
+                        # the pieces of a format_args! are found through the format site
+                        for fs in fmt_sites(P, fbody):
+                            if fs.bb == t[3] or (t[2] and norm(t[2][0])[0] == "call" and norm(t[2][0])[3] == fs.bb):
+                                if any(norm(a[1]) == ("param", 1) or raw_use(norm(a[1]), "format", depth + 1) for a in fs.args):
+                                    return True
+                    return any(raw_use(norm(a), nm, depth + 1) for a in t[2])
+                if t[0] == "phi":
+                    return any(raw_use(norm(x), parent, depth + 1) for x in t[1])
+                if t[0] in ("field", "payload", "cast"):
+                    return raw_use(norm(t[-1] if t[0] == "cast" else (t[2] if t[0] == "payload" else t[1])), parent, depth + 1)
+                return False
+            if res and any(raw_use(r) for r in rets):
+                self.problems.append(("json-escaper:path-returns-the-argument-unescaped", self.ctx.where(fbody),
+                                      "the JSON escaper has a path on which the returned string contains its argument as is; '\"' and '\\' "
+                                      "(and anything else that path admits) reach the document unescaped"))
             if bad_esc:
                 self.problems.append(("json-escaper:invalid-escape:%s" % bad_esc[0].encode("unicode_escape").decode(), self.ctx.where(P.bodies[fid]),
                                       "the JSON escaper emits %r, which is not one of the escapes JSON allows (\\\" \\\\ \\/ \\b \\f \\n \\r \\t \\uXXXX)" % bad_esc[0]))
